@@ -1040,13 +1040,13 @@ class ComparisonReporter:
             precision = 5
             suffix = ""
 
-        # ensures that numbers that appear as "zero" are also colored neutrally
-        threshold = 10**-precision
+        # ensures that exactly the numbers that appear as "zero" are colored neutrally: decide on the printed value
         formatted = f"{diff:.{precision}f}{suffix}"
+        printed = float(f"{diff:.{precision}f}")
 
-        if diff >= threshold:
+        if printed > 0:
             return color_greater(f"+{formatted}")
-        elif diff <= -threshold:
+        elif printed < 0:
             return color_smaller(formatted)
         else:
             return color_neutral(formatted)
